@@ -673,11 +673,32 @@ fn dump(tcx: TyCtxt<'_>) -> J {
                 let t = tcx.type_of(did).instantiate_identity().skip_norm_wip();
                 let mut s = String::new();
                 let _ = write!(s, "{}", ty_s(t));
-                consts.push(J::obj(vec![
+                let mut o = vec![
                     ("path", J::S(defpath(tcx, did))),
                     ("ty", J::S(s)),
                     ("span", span_j(tcx, tcx.def_span(did))),
-                ]));
+                ];
+                // the initialiser of a plain `const` item, as MIR (a table moved from a function body into a const keeps its rows)
+                if matches!(tcx.def_kind(did), DefKind::Const { .. }) {
+                    if let Some(ldid) = did.as_local() {
+                        if tcx.hir_maybe_body_owned_by(ldid).is_some() {
+                            let body = tcx.mir_for_ctfe(did);
+                            let cx = FnCx { tcx, body, def: ldid };
+                            let mut locals = vec![];
+                            for (l, d) in body.local_decls.iter_enumerated() {
+                                locals.push(J::obj(vec![
+                                    ("i", J::I(l.as_usize() as i64)),
+                                    ("ty", J::S(ty_s(d.ty))),
+                                    ("span", span_j(tcx, d.source_info.span)),
+                                ]));
+                            }
+                            let blocks: Vec<J> = body.basic_blocks.iter().map(|b| cx.block(b)).collect();
+                            o.push(("locals", J::A(locals)));
+                            o.push(("blocks", J::A(blocks)));
+                        }
+                    }
+                }
+                consts.push(J::obj(o));
             }
             DefKind::Impl { of_trait } => {
                 let st = tcx.type_of(did).instantiate_identity().skip_norm_wip();
